@@ -104,6 +104,25 @@ def run(ctx):
         shorts = [s for s in pumps(ctx, 12, False) if len(s) <= 30]
         ctx.rng.shuffle(shorts)
         streams.s_re(ctx, shorts[: ctx.n(500, 5000)])
+        # the model's own work measure (lexWork of lex_work_poly) on pump strings of two sizes: observed growth exponent of the modelled
+        # search trees, reported next to the proved degree (a sanity link between the bound and what the timing phase measures)
+        import math
+        small, big = pumps(ctx, 100, False), pumps(ctx, 400, False)
+        pairs = list(zip(small, big))
+        ctx.rng.shuffle(pairs)
+        pairs = [(a, b) for a, b in pairs if 50 <= len(a) and len(b) >= 3 * len(a)][: ctx.n(40, 300)]
+        wa = ctx.model.ask(['lexwork ' + hexs(a) for a, _ in pairs])
+        wb = ctx.model.ask(['lexwork ' + hexs(b) for _, b in pairs])
+        exps = []
+        for (a, b), x, y in zip(pairs, wa, wb):
+            ctx.stream('MODEL(lexwork)', inputs=2, lines=2)
+            if x.startswith('ok') and y.startswith('ok'):
+                w1, w2 = int(x.split()[1]), int(y.split()[1])
+                if w1 > 0 and w2 > 0:
+                    exps.append(math.log(w2 / w1) / math.log(len(b) / len(a)))
+        if exps:
+            ctx.dist['lexwork_growth_exponent_max'] = round(max(exps), 2)
+            ctx.dist['lexwork_growth_exponent_median'] = round(sorted(exps)[len(exps) // 2], 2)
     else:
         ctx.notes.append('model driver unavailable: correspondence streams skipped')
 
